@@ -90,7 +90,7 @@ func newSpec(hr *Rng, lo, hi int, detach bool) histSpec {
 		T:     schedSizes[hr.Intn(len(schedSizes))],
 		Steps: lo + hr.Intn(hi-lo+1),
 		Opts: WorldOpts{Addr: 1 + uint64(hr.Intn(3)), MaxDepth: 1 + hr.Intn(3), Wrap: hr.Bool(), Maps: true,
-			Detach: detach, LargeVals: hr.Chance(60), PopChild: true},
+			Detach: detach, LargeVals: hr.Chance(60), PopChild: true, SelfSet: hr.Chance(40)},
 	}
 	switch hr.Pick(40, 30, 30) {
 	case 1:
